@@ -2,6 +2,8 @@
 import json, os, sys, time
 
 VERIF = os.path.dirname(os.path.dirname(os.path.abspath(__file__)))
+# scratch runs (mutants, seeds) write their evidence elsewhere: VERIF_EVIDENCE=<dir>; registered commands never set it
+EVD = os.environ.get("VERIF_EVIDENCE") or os.path.join(VERIF, "evidence")
 
 
 class Report:
@@ -78,14 +80,14 @@ class Report:
                 kf.append(v)
             else:
                 real.append(v)
-        os.makedirs(os.path.join(VERIF, "evidence", "replay"), exist_ok=True)
-        for old in os.listdir(os.path.join(VERIF, "evidence", "replay")):
+        os.makedirs(os.path.join(EVD, "replay"), exist_ok=True)
+        for old in os.listdir(os.path.join(EVD, "replay")):
             if old.startswith(self.pid + "-"):
-                os.remove(os.path.join(VERIF, "evidence", "replay", old))     # replay files of earlier runs of this property
+                os.remove(os.path.join(EVD, "replay", old))     # replay files of earlier runs of this property
         for v in kf:
             print("KNOWN-FINDING: property=%s rule=%s instance=%s %s" % (self.pid, v["rule"], v["instance"], v["msg"]))
         for i, v in enumerate(real):
-            rp = os.path.join(VERIF, "evidence", "replay", "%s-%d.json" % (self.pid, i))
+            rp = os.path.join(EVD, "replay", "%s-%d.json" % (self.pid, i))
             with open(rp, "w") as fh:
                 json.dump({"property": self.pid, "tier": self.tier, **v}, fh, indent=1)
             print("%s rule=%s instance=%s %s" % (v["loc"] or "-", v["rule"], v["instance"], v["msg"]))
@@ -127,7 +129,7 @@ class Report:
             "wall_s": round(wall, 2),
             "violations": len(real),
         }
-        with open(os.path.join(VERIF, "evidence", self.pid + ".json"), "w") as fh:
+        with open(os.path.join(EVD, self.pid + ".json"), "w") as fh:
             json.dump(ev, fh, indent=1)
         print("%s: %d rule instances evaluated, %d hold, %d violations, %d known findings, %.1fs [%s]" % (
             self.pid, n_obl, len(self.passed), len(real), len(kf), wall, self.tier))
